@@ -356,7 +356,9 @@ def gen_xjoin(rng, big=False):
         s.main.append("C%d" % u)
     # wait until they are all blocked, then ask for the join from an external thread, then resume them
     s.main += ["B%d" % u for u, _ in units]
-    s.ext.append(["j%d" % tgt_es])
+    # (the external thread starts with the scenario: it waits for the same condition itself, otherwise its request can
+    # reach a stream whose pools are still empty, which then stops before the units are pushed - a legal outcome)
+    s.ext.append(["B%d" % u for u, _ in units] + ["j%d" % tgt_es])
     s.main += ["W"] * rng.randint(0, 3) + ["Y"] * rng.randint(0, 3)
     order = []
     for u, k in units:
